@@ -288,9 +288,57 @@ package chain
 // state when a block is reverted, the new state when a block is applied. An element with a leaf
 // index beyond that is rejected by updateTxnProofs instead of reaching UpdateElementProof (which
 // panics on elements that are not in the accumulator).
-//@ func updateTxnProofs
+//@ extern (types.StateElement).Copy
+//@   assigns nothing
+//@   ensures result.LeafIndex == se.LeafIndex
+// The callback is only ever given elements that are in the accumulator (never an ephemeral one,
+// never one beyond numLeaves; assumed of the callback: it rewrites nothing but the Merkle proof
+// of the element it is given, which no contract here reads); the result is false exactly when some non-ephemeral siacoin,
+// siafund or contract input lies beyond numLeaves -- ephemeral elements (no proof yet) are skipped.
+//@ pred inAcc(e types.StateElement, n uint64) = e.LeafIndex == types.UnassignedLeafIndex || e.LeafIndex < n
+//@ func updateTxnProofs props C05,C13
+//@   nopanic
+//@   callbacks pure
+//@   requires txn != nil
+//@   requires [no-typed-nil] forall k int :: { txn.FileContractResolutions[k] } 0 <= k && k < len(txn.FileContractResolutions) ==> txn.FileContractResolutions[k].Resolution.(*types.V2StorageProof) != nil
+//@   cbrequires updateElementProof [in-accumulator] : arg0 != nil && arg0.LeafIndex < numLeaves && arg0.LeafIndex != types.UnassignedLeafIndex
+//@   loop "range txn.SiacoinInputs"
+//@     invariant txn == old(txn) && len(txn.SiacoinInputs) == old(len(txn.SiacoinInputs)) && len(txn.SiafundInputs) == old(len(txn.SiafundInputs)) && len(txn.FileContractRevisions) == old(len(txn.FileContractRevisions)) && len(txn.FileContractResolutions) == old(len(txn.FileContractResolutions))
+//@     invariant [iff] valid <==> (forall k int :: { old(txn.SiacoinInputs[k]) } 0 <= k && k <= rangeindex ==> inAcc(old(txn.SiacoinInputs[k].Parent.StateElement), numLeaves))
+//@     invariant [untouched] forall k int :: { txn.SiacoinInputs[k] } rangeindex < k && k < len(txn.SiacoinInputs) ==> txn.SiacoinInputs[k] == old(txn.SiacoinInputs[k])
+//@     invariant [others] (forall k int :: { txn.SiafundInputs[k] } 0 <= k && k < len(txn.SiafundInputs) ==> txn.SiafundInputs[k] == old(txn.SiafundInputs[k])) && (forall k int :: { txn.FileContractRevisions[k] } 0 <= k && k < len(txn.FileContractRevisions) ==> txn.FileContractRevisions[k] == old(txn.FileContractRevisions[k]))
+//@   loop "range txn.SiafundInputs"
+//@     invariant txn == old(txn) && len(txn.SiacoinInputs) == old(len(txn.SiacoinInputs)) && len(txn.SiafundInputs) == old(len(txn.SiafundInputs)) && len(txn.FileContractRevisions) == old(len(txn.FileContractRevisions)) && len(txn.FileContractResolutions) == old(len(txn.FileContractResolutions))
+//@     invariant [iff] valid <==> (forall k int :: { old(txn.SiacoinInputs[k]) } 0 <= k && k < old(len(txn.SiacoinInputs)) ==> inAcc(old(txn.SiacoinInputs[k].Parent.StateElement), numLeaves))
+//@          && (forall k int :: { old(txn.SiafundInputs[k]) } 0 <= k && k <= rangeindex ==> inAcc(old(txn.SiafundInputs[k].Parent.StateElement), numLeaves))
+//@     invariant [untouched] forall k int :: { txn.SiafundInputs[k] } rangeindex < k && k < len(txn.SiafundInputs) ==> txn.SiafundInputs[k] == old(txn.SiafundInputs[k])
+//@     invariant [others] forall k int :: { txn.FileContractRevisions[k] } 0 <= k && k < len(txn.FileContractRevisions) ==> txn.FileContractRevisions[k] == old(txn.FileContractRevisions[k])
+//@   loop "range txn.FileContractRevisions"
+//@     invariant txn == old(txn) && len(txn.SiacoinInputs) == old(len(txn.SiacoinInputs)) && len(txn.SiafundInputs) == old(len(txn.SiafundInputs)) && len(txn.FileContractRevisions) == old(len(txn.FileContractRevisions)) && len(txn.FileContractResolutions) == old(len(txn.FileContractResolutions))
+//@     invariant [iff] valid <==> (forall k int :: { old(txn.SiacoinInputs[k]) } 0 <= k && k < old(len(txn.SiacoinInputs)) ==> inAcc(old(txn.SiacoinInputs[k].Parent.StateElement), numLeaves))
+//@          && (forall k int :: { old(txn.SiafundInputs[k]) } 0 <= k && k < old(len(txn.SiafundInputs)) ==> inAcc(old(txn.SiafundInputs[k].Parent.StateElement), numLeaves))
+//@          && (forall k int :: { old(txn.FileContractRevisions[k]) } 0 <= k && k <= rangeindex ==> inAcc(old(txn.FileContractRevisions[k].Parent.StateElement), numLeaves))
+//@     invariant [untouched] forall k int :: { txn.FileContractRevisions[k] } rangeindex < k && k < len(txn.FileContractRevisions) ==> txn.FileContractRevisions[k] == old(txn.FileContractRevisions[k])
+//@   loop "range txn.FileContractResolutions"
+//@     invariant txn == old(txn) && len(txn.FileContractResolutions) == old(len(txn.FileContractResolutions))
+//@     invariant [complete] len(txn.FileContractResolutions) == 0
+//@          && (forall k int :: { old(txn.SiacoinInputs[k]) } 0 <= k && k < old(len(txn.SiacoinInputs)) ==> inAcc(old(txn.SiacoinInputs[k].Parent.StateElement), numLeaves))
+//@          && (forall k int :: { old(txn.SiafundInputs[k]) } 0 <= k && k < old(len(txn.SiafundInputs)) ==> inAcc(old(txn.SiafundInputs[k].Parent.StateElement), numLeaves))
+//@          && (forall k int :: { old(txn.FileContractRevisions[k]) } 0 <= k && k < old(len(txn.FileContractRevisions)) ==> inAcc(old(txn.FileContractRevisions[k].Parent.StateElement), numLeaves))
+//@          ==> valid
+//@     invariant [sound] valid ==> (forall k int :: { old(txn.SiacoinInputs[k]) } 0 <= k && k < old(len(txn.SiacoinInputs)) ==> inAcc(old(txn.SiacoinInputs[k].Parent.StateElement), numLeaves))
+//@          && (forall k int :: { old(txn.SiafundInputs[k]) } 0 <= k && k < old(len(txn.SiafundInputs)) ==> inAcc(old(txn.SiafundInputs[k].Parent.StateElement), numLeaves))
+//@          && (forall k int :: { old(txn.FileContractRevisions[k]) } 0 <= k && k < old(len(txn.FileContractRevisions)) ==> inAcc(old(txn.FileContractRevisions[k].Parent.StateElement), numLeaves))
+//@   ensures [sound] result ==> (forall k int :: { old(txn.SiacoinInputs[k]) } 0 <= k && k < old(len(txn.SiacoinInputs)) ==> inAcc(old(txn.SiacoinInputs[k].Parent.StateElement), numLeaves))
+//@          && (forall k int :: { old(txn.SiafundInputs[k]) } 0 <= k && k < old(len(txn.SiafundInputs)) ==> inAcc(old(txn.SiafundInputs[k].Parent.StateElement), numLeaves))
+//@          && (forall k int :: { old(txn.FileContractRevisions[k]) } 0 <= k && k < old(len(txn.FileContractRevisions)) ==> inAcc(old(txn.FileContractRevisions[k].Parent.StateElement), numLeaves))
+//@   ensures [complete] old(len(txn.FileContractResolutions)) == 0
+//@          && (forall k int :: { old(txn.SiacoinInputs[k]) } 0 <= k && k < old(len(txn.SiacoinInputs)) ==> inAcc(old(txn.SiacoinInputs[k].Parent.StateElement), numLeaves))
+//@          && (forall k int :: { old(txn.SiafundInputs[k]) } 0 <= k && k < old(len(txn.SiafundInputs)) ==> inAcc(old(txn.SiafundInputs[k].Parent.StateElement), numLeaves))
+//@          && (forall k int :: { old(txn.FileContractRevisions[k]) } 0 <= k && k < old(len(txn.FileContractRevisions)) ==> inAcc(old(txn.FileContractRevisions[k].Parent.StateElement), numLeaves))
+//@          ==> result
 //@   assigns pointee:txn, elems:types.V2SiacoinInput, elems:types.V2SiafundInput, elems:types.V2FileContractRevision, elems:types.V2FileContractResolution, elems:types.Hash256, heap:types.V2StorageProof
-//@   requires [leaf-bound] (called("ApplyBlock") && numLeaves == callres("ApplyBlock", 0).Elements.NumLeaves)
+//@   precall [leaf-bound] (called("ApplyBlock") && numLeaves == callres("ApplyBlock", 0).Elements.NumLeaves)
 //@              || (!mayHaveCalled("ApplyBlock") && called("RevertBlock") && numLeaves == callarg("RevertBlock", 0).Elements.NumLeaves)
 //@ extern (*types.V2Transaction).EncodeTo
 //@   assigns nothing
